@@ -1,6 +1,6 @@
 (* C13 — statements only.  Each closed by [exact] of a lemma from the proof files. *)
-From Coq Require Import ZArith List Bool.
-From TFV Require Import Comb.LS Comb.LS_proofs.
+From Coq Require Import ZArith List Bool Reals.
+From TFV Require Import Comb.LS Comb.LS_proofs Comb.LSRank Comb.LSRank_proofs Comb.LSRank_final.
 Import ListNotations.
 Open Scope Z_scope.
 
@@ -29,6 +29,36 @@ Print Assumptions C13_restrict_l.
 Theorem C13_count_eq_helicity_le8 : forall t, In t triples8 -> count_ok t = true.
 Proof. exact (proj1 (forallb_forall count_ok triples8) count_all_le8). Qed.
 Print Assumptions C13_count_eq_helicity_le8.
+
+(* FULL RANK of the map (couplings g_ls) |-> (helicity amplitudes H_{lb,lc}): the matrix with entries
+   sqrt((2l+1)/(2ja+1)) <jb lb jc -lc|s lb-lc> <l 0 s lb-lc|ja lb-lc> (exact radicals of Amp/Coupling.v) is injective for
+   every spin triple with j <= 5/2 (the property's range) - for all couplings, hence for every list the code can offer
+   (parity / C-parity filters) and every l_list restriction.  Certificate: the Gram matrix is the identity within 1e-9
+   (one Coq-Interval goal per row, 108 non-empty triples, matrices up to 24 x 24) + strict diagonal dominance => injective. *)
+Theorem C13_ls_map_full_rank_le5 : forall ja2 jb2 jc2,
+  In ja2 [0; 1; 2; 3; 4; 5]%Z -> In jb2 [0; 1; 2; 3; 4; 5]%Z -> In jc2 [0; 1; 2; 3; 4; 5]%Z ->
+  injective_on (ls_matrix ja2 jb2 jc2) (length (ls_cols ja2 jb2 jc2)).
+Proof. exact ls_map_full_rank_le5. Qed.
+Print Assumptions C13_ls_map_full_rank_le5.
+
+Theorem C13_ls_map_full_rank_offered_le5 : forall ja2 jb2 jc2 pa pb pc p_break ca,
+  In ja2 [0; 1; 2; 3; 4; 5]%Z -> In jb2 [0; 1; 2; 3; 4; 5]%Z -> In jc2 [0; 1; 2; 3; 4; 5]%Z ->
+  let cols := ls_list ja2 jb2 jc2 pa pb pc p_break ca in
+  injective_on (ls_matrix_on ja2 jb2 jc2 cols) (length cols).
+Proof. exact ls_map_full_rank_offered_le5. Qed.
+Print Assumptions C13_ls_map_full_rank_offered_le5.
+
+Theorem C13_ls_map_full_rank_l_list_le5 : forall ja2 jb2 jc2 pa pb pc p_break ca allowed,
+  In ja2 [0; 1; 2; 3; 4; 5]%Z -> In jb2 [0; 1; 2; 3; 4; 5]%Z -> In jc2 [0; 1; 2; 3; 4; 5]%Z ->
+  let cols := restrict_l (ls_list ja2 jb2 jc2 pa pb pc p_break ca) allowed in
+  injective_on (ls_matrix_on ja2 jb2 jc2 cols) (length cols).
+Proof. exact ls_map_full_rank_l_list_le5. Qed.
+Print Assumptions C13_ls_map_full_rank_l_list_le5.
+
+(* the general lemma behind it (any size): strictly diagonally dominant Gram matrix => injective *)
+Theorem C13_gram_dominant_injective : forall M n, rows_wf M n -> gram_dominant M n -> injective_on M n.
+Proof. exact gram_dominant_injective. Qed.
+Print Assumptions C13_gram_dominant_injective.
 
 (* non-vacuity: 1- -> 1- 0- has the single P-wave; 1/2+ -> 1/2+ 0- parity violating has S and P *)
 Example C13_example_1 : ls_list 2 2 0 (Some (-1)) (Some (-1)) (Some (-1)) false None = [(1, 2)].
